@@ -189,7 +189,9 @@ def judge_waiters(R, waiters, processed_at, what, tolerance=EPS):
         # ties: an advertisement processed exactly at the deadline / at the cancellation may go either way
         if not ok and during:
             t0 = min(during)
-            if abs(t0 - deadline) <= tolerance and got[0] in ("found", "notfound") and abs(w["end"] - deadline) <= tolerance:
+            # (not-found is only a possible outcome of the tie if the advertisement was not processed strictly before the deadline: a record whose
+            # timer precedes the deadline's in the same loop iteration - as after a stalled loop - has been processed before the timeout)
+            if abs(t0 - deadline) <= tolerance and abs(w["end"] - deadline) <= tolerance and (got[0] == "found" or (got[0] == "notfound" and t0 >= deadline - 1e-10)):
                 ok = True
             if cancel_at is not None and abs(t0 - cancel_at) <= tolerance and got[0] in ("found", "cancelled") and abs(w["end"] - cancel_at) <= tolerance:
                 ok = True
@@ -522,7 +524,8 @@ def enum_schedules(tier):
                                                           [6.0, "wait", ctl, IDS[0], 2, None]]}
             yield {"pairing": pairing, "events": [[0.0, "wait", ctl, IDS[0].upper(), 10, None], [0.0, "wait", ctl, IDS[0], 3, None], [0.0, "wait", ctl, IDS[1], 5, None],
                                                   [2.0, "adv", 0, 1 | hap, 0]]}
-            for dt in (-0.25, 0.0, 0.25):
+            for dt in (-0.25, 0.0, 0.25, -5e-10):
+                # (-5e-10: record and deadline fall due in the same loop iteration - asyncio's clock resolution is 1e-9 -, the record first)
                 for order in (0, 1):
                     yield {"pairing": pairing, "events": [[1.0, "wait", ctl, IDS[0], 10, None], [11.0 - 0.5 + dt, "adv", 0, hap, order], [20.0, "wait", ctl, IDS[0], 1, None]]}
             yield {"pairing": pairing, "events": [[0.0, "adv", 1, 3 | hap, 0], [5.0, "wait", ctl, IDS[1], 1, None], [5.0, "wait", ctl, IDS[0], 1, 0.2]]}
